@@ -8,15 +8,23 @@
 // types (static_vector<int>, inplace_string, string_view, span, array, optional, variant, bitset, bit helpers,
 // div_sat, chrono day/month), and every range/index-taking modifier of inplace_string.
 // Only meaningful in the chk flavours (checks on); in other flavours the job reports nothing.
+// Round 2: the table follows the run-time catalogue overload by overload (containers2/strings2/others2) and runs in
+// flavour chkfast as well (thorough tier; the two TETL_PRECONDITION_SAFE rows of array::operator[] are left out there).
 #include "mc.hpp"
 
 #include <etl/array.hpp>
 #include <etl/bit.hpp>
 #include <etl/bitset.hpp>
+#include <etl/charconv.hpp>
 #include <etl/chrono.hpp>
+#include <etl/expected.hpp>
+#include <etl/flat_set.hpp>
+#include <etl/mdspan.hpp>
 #include <etl/numeric.hpp>
 #include <etl/optional.hpp>
+#include <etl/set.hpp>
 #include <etl/span.hpp>
+#include <etl/stack.hpp>
 #include <etl/string.hpp>
 #include <etl/string_view.hpp>
 #include <etl/variant.hpp>
@@ -160,7 +168,9 @@ void containers(Tally& t)
     BAD("span::subspan(offset,count)", "sum_wraps", int a[3] = {1, 2, 3}; etl::span<int> s{a, 3}; (void)s.subspan(2, etl::size_t(-1) - 1););
     GOOD("span::subspan(offset,count)", "count_eq_rest", int a[3] = {1, 2, 3}; etl::span<int> s{a, 3}; (void)s.subspan(2, 1););
     BAD("span::front()", "empty", etl::span<int> s{}; (void)s.front(););
+#if !defined(MC_FLAVOUR_CHKFAST) // TETL_PRECONDITION_SAFE sites: compiled out by design without TETL_ENABLE_CONTRACT_CHECKS_SAFE
     BAD("array::operator[](idx)", "index_eq_size", etl::array<int, 3> a{1, 2, 3}; (void)a[3];);
+#endif
     GOOD("array::operator[](idx)", "index_last", etl::array<int, 3> a{1, 2, 3}; (void)a[2];);
 }
 
@@ -189,6 +199,242 @@ void others(Tally& t)
     BAD("chrono::month::month(unsigned)", "value_256", etl::chrono::month m{256}; (void)m;);
 }
 
+// ---------------------------------------------------------------------------------------------------------
+// round 2: the remaining overloads / operations of the run-time catalogue (one violating call that stays inside
+// the object's own storage, so that only the contract check can make it non-constant, + the nearest valid call)
+// ---------------------------------------------------------------------------------------------------------
+
+using V2   = etl::static_vector<int, 2>;
+using FS2  = etl::flat_set<int, etl::static_vector<int, 2>>;
+using SS2  = etl::static_set<int, 2>;
+using M23  = etl::mdspan<int, etl::extents<int, 2, 3>>;
+using M23L = etl::mdspan<int, etl::extents<int, 2, 3>, etl::layout_left>;
+using MD2  = etl::mdspan<int, etl::dextents<etl::size_t, 2>>;
+
+void containers2(Tally& t)
+{
+    // static_vector: remaining overloads
+    BAD("static_vector::operator[](idx) const", "index_eq_size", V4 v{}; v.push_back(1); V4 const& c = v; (void)c[1];);
+    GOOD("static_vector::operator[](idx) const", "index_last", V4 v{}; v.push_back(1); V4 const& c = v; (void)c[0];);
+    BAD("static_vector::front() const", "empty", V4 const v{}; (void)v.front(););
+    BAD("static_vector::back() const", "empty", V4 const v{}; (void)v.back(););
+    GOOD("static_vector::front() const", "non_empty", V4 const v(1, 7); (void)v.front(););
+    BAD("static_vector::emplace_back(args)", "full", V4 v(4, 7); v.emplace_back(1););
+    GOOD("static_vector::emplace_back(args)", "one_below_full", V4 v(3, 7); v.emplace_back(1););
+    BAD("static_vector::emplace(pos,args)", "full", V4 v(4, 7); v.emplace(v.begin(), 1););
+    BAD("static_vector::emplace(pos,args)", "pos_before_begin", V4 v(2, 7); v.erase(v.begin()); v.emplace(v.begin() + 3, 1););
+    GOOD("static_vector::emplace(pos,args)", "pos_begin", V4 v(3, 7); v.emplace(v.begin(), 1););
+    BAD("static_vector::insert(pos,rvalue)", "full", V4 v(4, 7); int x = 1; v.insert(v.end(), static_cast<int&&>(x)););
+    GOOD("static_vector::insert(pos,rvalue)", "one_below_full", V4 v(3, 7); int x = 1; v.insert(v.end(), static_cast<int&&>(x)););
+    BAD("static_vector::insert(pos,first,last)", "range_gt_free", V4 v(2, 7); int a[3] = {1, 2, 3}; v.insert(v.begin(), a, a + 3););
+    BAD("static_vector::insert(pos,first,last)", "range_reversed", V4 v(2, 7); int a[3] = {1, 2, 3}; v.insert(v.begin(), a + 1, a););
+    GOOD("static_vector::insert(pos,first,last)", "range_eq_free", V4 v(2, 7); int a[3] = {1, 2, 3}; v.insert(v.begin(), a, a + 2););
+    BAD("static_vector::erase(pos)", "pos_eq_end", V4 v(2, 7); v.erase(v.end()););
+    GOOD("static_vector::erase(pos)", "pos_last", V4 v(2, 7); v.erase(v.end() - 1););
+    BAD("static_vector::resize(n)", "n_past_capacity", V4 v(1, 7); v.resize(5););
+    GOOD("static_vector::resize(n)", "n_eq_capacity", V4 v(1, 7); v.resize(4););
+    BAD("static_vector::assign(first,last)", "range_gt_capacity", V4 v{}; int a[5] = {1, 2, 3, 4, 5}; v.assign(a, a + 5););
+    GOOD("static_vector::assign(first,last)", "range_eq_capacity", V4 v{}; int a[5] = {1, 2, 3, 4, 5}; v.assign(a, a + 4););
+    BAD("static_vector::static_vector(first,last)", "range_gt_capacity", int a[5] = {1, 2, 3, 4, 5}; V4 v(a, a + 5); (void)v;);
+    GOOD("static_vector::static_vector(first,last)", "range_eq_capacity", int a[5] = {1, 2, 3, 4, 5}; V4 v(a, a + 4); (void)v;);
+    BAD("static_vector::static_vector(n,value)", "n_past_capacity", V4 v(5, 7); (void)v;);
+    // stack
+    BAD("stack<static_vector>::top()", "empty", etl::stack<int, V2> s{}; (void)s.top(););
+    BAD("stack<static_vector>::pop()", "empty", etl::stack<int, V2> s{}; s.pop(););
+    BAD("stack<static_vector>::push(value)", "full", etl::stack<int, V2> s{}; s.push(1); s.push(2); s.push(3););
+    GOOD("stack<static_vector>::push(value)", "one_below_full", etl::stack<int, V2> s{}; s.push(1); s.push(2); (void)s.top(); s.pop(););
+    // flat_set over static_vector / static_set
+    BAD("flat_set<static_vector>::insert(value)", "full+new_key", FS2 s{}; s.insert(1); s.insert(2); s.insert(3););
+    GOOD("flat_set<static_vector>::insert(value)", "full+duplicate", FS2 s{}; s.insert(1); s.insert(2); s.insert(2););
+    BAD("flat_set<static_vector>::emplace(args)", "full+new_key", FS2 s{}; s.emplace(1); s.emplace(2); s.emplace(0););
+    BAD("flat_set<static_vector>::erase(pos)", "pos_eq_end", FS2 s{}; s.insert(1); s.erase(s.end()););
+    GOOD("flat_set<static_vector>::erase(pos)", "pos_begin", FS2 s{}; s.insert(1); s.erase(s.begin()););
+    BAD("flat_set<static_vector>::erase(first,last)", "range_reversed", FS2 s{}; s.insert(1); s.insert(2); s.erase(s.end(), s.begin()););
+    GOOD("flat_set<static_vector>::erase(first,last)", "whole", FS2 s{}; s.insert(1); s.insert(2); s.erase(s.begin(), s.end()););
+    BAD("static_set::erase(pos)", "pos_eq_end", SS2 s{}; s.insert(1); s.erase(s.end()););
+    GOOD("static_set::erase(pos)", "pos_begin", SS2 s{}; s.insert(1); s.erase(s.begin()););
+    BAD("static_set::erase(first,last)", "range_reversed", SS2 s{}; s.insert(1); s.insert(2); s.erase(s.end(), s.begin()););
+    GOOD("static_set::insert(value)", "full+new_key", SS2 s{}; s.insert(1); s.insert(2); s.insert(3););
+    BAD("static_set::static_set(first,last)", "range_gt_capacity", int a[3] = {1, 2, 3}; SS2 s(a, a + 3); (void)s;);
+    GOOD("static_set::static_set(first,last)", "range_eq_capacity", int a[3] = {1, 2, 3}; SS2 s(a, a + 2); (void)s;);
+    // span: remaining forms
+    BAD("span::back()", "empty", etl::span<int> s{}; (void)s.back(););
+    GOOD("span::back()", "non_empty", int a[3] = {1, 2, 3}; etl::span<int> s{a, 3}; (void)s.back(););
+    BAD("span::first<Count>()", "count_past_size", int a[3] = {1, 2, 3}; etl::span<int> s{a, 2}; (void)s.first<3>(););
+    GOOD("span::first<Count>()", "count_eq_size", int a[3] = {1, 2, 3}; etl::span<int> s{a, 2}; (void)s.first<2>(););
+    BAD("span::last<Count>()", "count_past_size", int a[3] = {1, 2, 3}; etl::span<int> s{a, 2}; (void)s.last<3>(););
+    BAD("span::subspan<Offset,Count>()", "offset_past_size", int a[3] = {1, 2, 3}; etl::span<int> s{a, 2}; (void)s.subspan<3>(););
+    BAD("span::subspan<Offset,Count>()", "count_past_rest", int a[3] = {1, 2, 3}; etl::span<int> s{a, 2}; (void)s.subspan<1, 2>(););
+    GOOD("span::subspan<Offset,Count>()", "count_eq_rest", int a[3] = {1, 2, 3}; etl::span<int> s{a, 2}; (void)s.subspan<1, 1>(););
+    BAD("span<T,N>::span(first,count)", "count_lt_extent", int a[3] = {1, 2, 3}; etl::span<int, 3> s{a, 2}; (void)s;);
+    GOOD("span<T,N>::span(first,count)", "count_eq_extent", int a[3] = {1, 2, 3}; etl::span<int, 3> s{a, 3}; (void)s;);
+    BAD("span<T,N>::span(span<U,dynamic_extent>)", "size_lt_extent", int a[3] = {1, 2, 3}; etl::span<int> d{a, 2}; etl::span<int, 3> s{d}; (void)s;);
+    GOOD("span<T,N>::span(span<U,dynamic_extent>)", "size_eq_extent", int a[3] = {1, 2, 3}; etl::span<int> d{a, 3}; etl::span<int, 3> s{d}; (void)s;);
+    BAD("span<T,N>::span(range)", "size_lt_extent", V4 const v(2, 7); etl::span<int const, 3> s{v}; (void)s;);
+    GOOD("span<T,N>::span(range)", "size_eq_extent", V4 const v(3, 7); etl::span<int const, 3> s{v}; (void)s;);
+    // array
+#if !defined(MC_FLAVOUR_CHKFAST)
+    BAD("array::operator[](idx) const", "index_eq_size", etl::array<int, 3> const a{1, 2, 3}; (void)a[3];);
+#endif
+    GOOD("array::operator[](idx) const", "index_last", etl::array<int, 3> const a{1, 2, 3}; (void)a[2];);
+    BAD("array::front()", "zero_size", etl::array<int, 0> a{}; (void)a.front(););
+    BAD("array::back()", "zero_size", etl::array<int, 0> a{}; (void)a.back(););
+}
+
+void strings2(Tally& t)
+{
+    using SV = etl::string_view;
+    BAD("basic_inplace_string::front()", "empty", S8 s{}; (void)s.front(););
+    BAD("basic_inplace_string::back()", "empty", S8 s{}; (void)s.back(););
+    GOOD("basic_inplace_string::back()", "non_empty", S8 s{"a"}; (void)s.back(););
+    BAD("basic_inplace_string::operator[](index)", "index_past_size", S8 s{"abc"}; (void)s[4];);
+    GOOD("basic_inplace_string::operator[](index)", "index_eq_size", S8 s{"abc"}; (void)s[3];);
+    BAD("basic_inplace_string::operator[](index) const", "index_past_size", S8 const s{"abc"}; (void)s[4];);
+    GOOD("basic_inplace_string::operator[](index) const", "index_eq_size", S8 const s{"abc"}; (void)s[3];);
+    BAD("basic_inplace_string::basic_inplace_string(count,ch)", "count_past_capacity", etl::inplace_string<2> s(3, 'x'); (void)s;);
+    GOOD("basic_inplace_string::basic_inplace_string(count,ch)", "count_eq_capacity", etl::inplace_string<2> s(2, 'x'); (void)s;);
+    BAD("basic_inplace_string::basic_inplace_string(cstr)", "length_gt_capacity", etl::inplace_string<2> s{"abc"}; (void)s;);
+    GOOD("basic_inplace_string::basic_inplace_string(cstr)", "length_eq_capacity", etl::inplace_string<2> s{"ab"}; (void)s;);
+    BAD("basic_inplace_string::basic_inplace_string(sv)", "length_gt_capacity", etl::inplace_string<2> s{SV{"abc"}}; (void)s;);
+    BAD("basic_inplace_string::assign(count,ch)", "count_past_capacity", etl::inplace_string<2> s{}; s.assign(3, 'x'););
+    GOOD("basic_inplace_string::assign(count,ch)", "count_eq_capacity", etl::inplace_string<2> s{}; s.assign(2, 'x'););
+    BAD("basic_inplace_string::assign(ptr,count)", "count_past_capacity", etl::inplace_string<2> s{}; s.assign("abc", 3););
+    GOOD("basic_inplace_string::assign(ptr,count)", "count_eq_capacity", etl::inplace_string<2> s{}; s.assign("abc", 2););
+    BAD("basic_inplace_string::assign(cstr)", "length_gt_capacity", etl::inplace_string<2> s{}; s.assign("abc"););
+    BAD("basic_inplace_string::operator=(cstr)", "length_gt_capacity", etl::inplace_string<2> s{}; s = "abc";);
+    GOOD("basic_inplace_string::operator=(cstr)", "length_eq_capacity", etl::inplace_string<2> s{}; s = "ab";);
+    BAD("basic_inplace_string::assign(sv)", "length_gt_capacity", etl::inplace_string<2> s{}; s.assign(SV{"abc"}););
+    BAD("basic_inplace_string::assign(sv,pos,count)", "pos_past_size", S8 s{}; s.assign(SV{"ab"}, 3, 0););
+    GOOD("basic_inplace_string::assign(sv,pos,count)", "pos_eq_size", S8 s{}; s.assign(SV{"ab"}, 2, 0););
+    BAD("basic_inplace_string::append(sv,pos,count)", "pos_past_size", S8 s{"a"}; s.append(SV{"ab"}, 3, 0););
+    GOOD("basic_inplace_string::append(sv,pos,count)", "pos_eq_size", S8 s{"a"}; s.append(SV{"ab"}, 2, 0););
+    BAD("basic_inplace_string::insert(index,sv)", "index_past_size", S8 s{"abc"}; s.insert(4, SV{"x"}););
+    GOOD("basic_inplace_string::insert(index,sv)", "index_eq_size", S8 s{"abc"}; s.insert(3, SV{"x"}););
+    BAD("basic_inplace_string::insert(index,sv,index_str,count)", "index_str_past_size", S8 s{"abc"}; s.insert(0, SV{"x"}, 2, 0););
+    GOOD("basic_inplace_string::insert(index,sv,index_str,count)", "index_str_eq_size", S8 s{"abc"}; s.insert(0, SV{"x"}, 1, 0););
+    BAD("basic_inplace_string::compare(pos,count,str)", "pos_past_size", S8 const s{"abc"}; S8 const o{"x"}; (void)s.compare(4, 1, o););
+    GOOD("basic_inplace_string::compare(pos,count,str)", "pos_eq_size", S8 const s{"abc"}; S8 const o{"x"}; (void)s.compare(3, 1, o););
+    BAD("basic_inplace_string::compare(pos1,count1,str,pos2,count2)", "pos2_past_size", S8 const s{"abc"}; S8 const o{"x"}; (void)s.compare(0, 1, o, 2, 0););
+    BAD("basic_inplace_string::compare(pos,count,cstr)", "pos_past_size", S8 const s{"abc"}; (void)s.compare(4, 1, "x"););
+    BAD("basic_inplace_string::compare(pos1,count1,ptr,count2)", "pos_past_size", S8 const s{"abc"}; (void)s.compare(4, 1, "xy", 1););
+    BAD("basic_inplace_string::compare(pos1,count1,sv)", "pos_past_size", S8 const s{"abc"}; (void)s.compare(4, 1, SV{"x"}););
+    GOOD("basic_inplace_string::compare(pos1,count1,sv)", "pos_eq_size", S8 const s{"abc"}; (void)s.compare(3, 1, SV{"x"}););
+    BAD("basic_inplace_string::compare(pos1,count1,sv,pos2,count2)", "pos2_past_size", S8 const s{"abc"}; (void)s.compare(0, 1, SV{"x"}, 2, 0););
+    BAD("basic_inplace_string::replace(pos,count,cstr)", "pos_past_size", S20 s{"abc"}; s.replace(4, 0, "XY"););
+    GOOD("basic_inplace_string::replace(pos,count,cstr)", "pos_eq_size", S20 s{"abc"}; s.replace(3, 0, "XY"););
+    BAD("basic_inplace_string::replace(first,last,cstr)", "last_past_end", S20 s{"abc"}; s.replace(s.begin() + 1, s.begin() + 6, "XY"););
+    GOOD("basic_inplace_string::replace(first,last,cstr)", "inside", S20 s{"abcdef"}; s.replace(s.begin() + 1, s.begin() + 3, "XY"););
+    // string_view: remaining members
+    BAD("basic_string_view::back()", "empty", SV v{}; (void)v.back(););
+    GOOD("basic_string_view::back()", "non_empty", SV v{"a"}; (void)v.back(););
+    BAD("basic_string_view::copy(dest,count,pos)", "pos_past_size", char const a[] = "abcdef"; SV v{a, 3}; char d[4] = {}; (void)v.copy(d, 1, 4););
+    GOOD("basic_string_view::copy(dest,count,pos)", "pos_eq_size", char const a[] = "abcdef"; SV v{a, 3}; char d[4] = {}; (void)v.copy(d, 1, 3););
+    BAD("basic_string_view::compare(pos1,count1,sv)", "pos_past_size", char const a[] = "abcdef"; SV v{a, 3}; (void)v.compare(4, 1, SV{"x"}););
+    GOOD("basic_string_view::compare(pos1,count1,sv)", "pos_eq_size", char const a[] = "abcdef"; SV v{a, 3}; (void)v.compare(3, 1, SV{"x"}););
+    BAD("basic_string_view::compare(pos1,count1,sv,pos2,count2)", "pos2_past_size", char const a[] = "abcdef"; char const b[] = "xyz"; SV v{a, 3}; (void)v.compare(0, 1, SV{b, 1}, 2, 1););
+    BAD("basic_string_view::compare(pos1,count1,cstr)", "pos_past_size", char const a[] = "abcdef"; SV v{a, 3}; (void)v.compare(4, 1, "x"););
+    BAD("basic_string_view::compare(pos1,count1,ptr,count2)", "pos_past_size", char const a[] = "abcdef"; SV v{a, 3}; (void)v.compare(4, 1, "xy", 1););
+    BAD("basic_string_view::substr(pos,count)", "pos_past_size/inside_array", char const a[] = "abcdef"; SV v{a, 3}; (void)v.substr(4, 1););
+    GOOD("basic_string_view::substr(pos,count)", "pos_eq_size/inside_array", char const a[] = "abcdef"; SV v{a, 3}; (void)v.substr(3, 1););
+    BAD("basic_string_view::remove_prefix(n)", "n_past_size/inside_array", char const a[] = "abcdef"; SV v{a, 3}; v.remove_prefix(4););
+    BAD("basic_string_view::remove_suffix(n)", "n_past_size/inside_array", char const a[] = "abcdef"; SV v{a + 2, 3}; v.remove_suffix(4););
+    BAD("basic_string_view::operator[](pos)", "pos_eq_size/inside_array", char const a[] = "abcdef"; SV v{a, 3}; (void)v[3];);
+    BAD("basic_string_view::front()", "empty/inside_array", char const a[] = "abcdef"; SV v{a, 0}; (void)v.front(););
+    BAD("basic_string_view::back()", "empty/inside_array", char const a[] = "abcdef"; SV v{a + 2, 0}; (void)v.back(););
+    BAD("basic_string_view::operator[](pos)", "pos_eq_size/wide", etl::wstring_view v{L"abc"}; (void)v[3];);
+    GOOD("basic_string_view::operator[](pos)", "pos_last/wide", etl::wstring_view v{L"abc"}; (void)v[2];);
+    BAD("basic_inplace_string::insert(index,count,ch)", "index_past_size/char16_t", etl::basic_inplace_string<char16_t, 8> s{u"abc"}; s.insert(4, 1, u'x'););
+    GOOD("basic_inplace_string::insert(index,count,ch)", "index_eq_size/char16_t", etl::basic_inplace_string<char16_t, 8> s{u"abc"}; s.insert(3, 1, u'x'););
+}
+
+void others2(Tally& t)
+{
+    BAD("optional::operator*() const&", "empty", etl::optional<int> const o{}; (void)*o;);
+    GOOD("optional::operator*() const&", "engaged", etl::optional<int> const o{1}; (void)*o;);
+    BAD("optional::operator*() &&", "empty", etl::optional<int> o{}; (void)*static_cast<etl::optional<int>&&>(o););
+    BAD("optional::operator*() const&&", "empty", etl::optional<int> const o{}; (void)*static_cast<etl::optional<int> const&&>(o););
+    BAD("optional::operator*()", "empty_after_reset", etl::optional<int> o{1}; o.reset(); (void)*o;);
+    GOOD("optional::operator->()", "empty", etl::optional<int> o{}; (void)o.operator->(););
+    GOOD("optional::value_or(default)", "empty", etl::optional<int> o{}; (void)o.value_or(3););
+    BAD("optional<T&>::operator*()", "empty", etl::optional<int&> o{}; (void)*o;);
+    GOOD("optional<T&>::operator*()", "bound", int x = 1; etl::optional<int&> o{x}; (void)*o;);
+    BAD("expected::operator*() &", "holds_error", etl::expected<int, char> e{etl::unexpect, 'x'}; (void)*e;);
+    GOOD("expected::operator*() &", "holds_value", etl::expected<int, char> e{etl::in_place, 1}; (void)*e;);
+    BAD("expected::operator*() const&", "holds_error", etl::expected<int, char> const e{etl::unexpect, 'x'}; (void)*e;);
+    BAD("expected::error() &", "holds_value", etl::expected<int, char> e{etl::in_place, 1}; (void)e.error(););
+    GOOD("expected::error() &", "holds_error", etl::expected<int, char> e{etl::unexpect, 'x'}; (void)e.error(););
+    BAD("expected::error() const&", "holds_value", etl::expected<int, char> const e{etl::in_place, 1}; (void)e.error(););
+    GOOD("expected::operator->()", "holds_error", etl::expected<int, char> e{etl::unexpect, 'x'}; (void)e.operator->(););
+    BAD("variant::operator[](index_v<I>) const&", "wrong_alternative", etl::variant<int, float> const v{1}; (void)v[etl::index_v<1>];);
+    BAD("variant::operator[](index_v<I>)", "index_lt_active", etl::variant<int, float> v{1.0F}; (void)v[etl::index_v<0>];);
+    BAD("unchecked_get<I>(variant&)", "wrong_alternative", etl::variant<int, float> v{1}; (void)etl::unchecked_get<1>(v););
+    GOOD("unchecked_get<I>(variant&)", "active_alternative", etl::variant<int, float> v{1}; (void)etl::unchecked_get<0>(v););
+    BAD("unchecked_get<I>(variant const&)", "wrong_alternative", etl::variant<int, float> const v{1}; (void)etl::unchecked_get<1>(v););
+    GOOD("get_if<I>(variant*)", "wrong_alternative", etl::variant<int, float> v{1}; (void)etl::get_if<1>(&v););
+    GOOD("get_if<T>(variant const*)", "wrong_alternative", etl::variant<int, float> const v{1}; (void)etl::get_if<float>(&v););
+    // bitset / basic_bitset
+    BAD("bitset::operator[](pos)", "pos_eq_size", etl::bitset<8> b{}; b[8] = true;);
+    GOOD("bitset::operator[](pos)", "pos_last", etl::bitset<8> b{}; b[7] = true;);
+    BAD("bitset::operator[](pos) const", "pos_eq_size", etl::bitset<8> const b{}; (void)b[8];);
+    GOOD("bitset::operator[](pos) const", "pos_last", etl::bitset<8> const b{}; (void)b[7];);
+    BAD("bitset::set(pos,value)", "pos_past_size/multiword", etl::bitset<65> b{}; b.set(66, false););
+    GOOD("bitset::set(pos,value)", "pos_last/multiword", etl::bitset<65> b{}; b.set(64, false););
+    BAD("bitset::bitset(string_view,pos,n)", "length_gt_bits", etl::bitset<2> b{etl::string_view{"010"}}; (void)b;);
+    GOOD("bitset::bitset(string_view,pos,n)", "length_eq_bits", etl::bitset<2> b{etl::string_view{"01"}}; (void)b;);
+    BAD("bitset::bitset(cstr,n)", "length_gt_bits", etl::bitset<2> b{"010"}; (void)b;);
+    GOOD("bitset::bitset(cstr,n)", "length_eq_bits", etl::bitset<2> b{"01"}; (void)b;);
+    BAD("basic_bitset::unchecked_set(pos,value)", "pos_eq_size", etl::basic_bitset<9, etl::uint8_t> b{}; b.unchecked_set(9););
+    GOOD("basic_bitset::unchecked_set(pos,value)", "pos_last", etl::basic_bitset<9, etl::uint8_t> b{}; b.unchecked_set(8););
+    BAD("basic_bitset::unchecked_test(pos)", "pos_eq_size", etl::basic_bitset<9, etl::uint8_t> b{}; (void)b.unchecked_test(9););
+    BAD("basic_bitset::unchecked_reset(pos)", "pos_eq_size", etl::basic_bitset<9, etl::uint8_t> b{}; b.unchecked_reset(9););
+    BAD("basic_bitset::unchecked_flip(pos)", "pos_eq_size", etl::basic_bitset<9, etl::uint8_t> b{}; b.unchecked_flip(9););
+    BAD("basic_bitset::operator[](pos)", "pos_eq_size", etl::basic_bitset<9, etl::uint8_t> b{}; b[9] = true;);
+    GOOD("basic_bitset::operator[](pos)", "pos_last", etl::basic_bitset<9, etl::uint8_t> b{}; b[8] = true;);
+    // bit helpers, remaining overload / word types
+    BAD("set_bit(word,pos,value)", "pos_eq_digits", (void)etl::set_bit(etl::uint8_t(0), etl::uint8_t(8), true););
+    GOOD("set_bit(word,pos,value)", "pos_last", (void)etl::set_bit(etl::uint8_t(0), etl::uint8_t(7), true););
+    BAD("set_bit(word,pos)", "pos_eq_digits/u64", (void)etl::set_bit(etl::uint64_t(0), etl::uint64_t(64)););
+    GOOD("set_bit(word,pos)", "pos_last/u64", (void)etl::set_bit(etl::uint64_t(0), etl::uint64_t(63)););
+    BAD("test_bit(word,pos)", "pos_huge/u64", (void)etl::test_bit(etl::uint64_t(0), etl::uint64_t(1) << 32););
+    GOOD("test_bit(word,pos)", "pos_last", (void)etl::test_bit(etl::uint16_t(0), etl::uint16_t(15)););
+    GOOD("flip_bit(word,pos)", "pos_last", (void)etl::flip_bit(etl::uint32_t(0), etl::uint32_t(31)););
+    GOOD("reset_bit(word,pos)", "pos_last", (void)etl::reset_bit(etl::uint8_t(0), etl::uint8_t(7)););
+    // div_sat for the other corners
+    BAD("div_sat(x,y)", "zero_divisor/unsigned", (void)etl::div_sat(1U, 0U););
+    BAD("div_sat(x,y)", "zero_divisor/min", (void)etl::div_sat(etl::numeric_limits<long long>::min(), 0LL););
+    GOOD("div_sat(x,y)", "min_by_minus_one", (void)etl::div_sat(etl::numeric_limits<int>::min(), -1););
+    GOOD("chrono::month::month(unsigned)", "value_255", etl::chrono::month m{255}; (void)m;);
+    // mdspan mappings
+    BAD("layout_right::mapping::stride(r)", "rank_index_eq_rank", etl::layout_right::mapping<etl::extents<int, 2, 3>> m{}; (void)m.stride(2););
+    GOOD("layout_right::mapping::stride(r)", "rank_index_last", etl::layout_right::mapping<etl::extents<int, 2, 3>> m{}; (void)m.stride(1););
+    BAD("layout_left::mapping::stride(r)", "rank_index_eq_rank", etl::layout_left::mapping<etl::extents<int, 2, 3>> m{}; (void)m.stride(2););
+    GOOD("layout_left::mapping::stride(r)", "rank_index_last", etl::layout_left::mapping<etl::extents<int, 2, 3>> m{}; (void)m.stride(1););
+}
+
+// [mdspan.mdspan.members] / [charconv]: an out-of-range index that still maps inside the buffer, an invalid base
+void mdspan_and_charconv(Tally& t)
+{
+    BAD("mdspan::operator()(indices...)", "index_eq_extent", int a[6] = {}; M23 m{a}; (void)m(0, 3););
+    BAD("mdspan::operator()(indices...)", "index_negative", int a[6] = {}; M23 m{a}; (void)m(1, -1););
+    GOOD("mdspan::operator()(indices...)", "corner", int a[6] = {}; M23 m{a}; (void)m(1, 2););
+    BAD("mdspan::operator()(indices...)", "index_eq_extent/layout_left", int a[6] = {}; M23L m{a}; (void)m(2, 0););
+    GOOD("mdspan::operator()(indices...)", "corner/layout_left", int a[6] = {}; M23L m{a}; (void)m(1, 2););
+    BAD("mdspan::operator()(indices...)", "index_eq_extent/dextents", int a[6] = {}; MD2 m{a, 2, 3}; (void)m(0, 3););
+    GOOD("mdspan::operator()(indices...)", "corner/dextents", int a[6] = {}; MD2 m{a, 2, 3}; (void)m(1, 2););
+    BAD("mdspan::operator[](array<OtherIndexType,rank> const&)", "index_eq_extent", int a[6] = {}; M23 m{a}; (void)m[etl::array<int, 2>{0, 3}];);
+    GOOD("mdspan::operator[](array<OtherIndexType,rank> const&)", "corner", int a[6] = {}; M23 m{a}; (void)m[etl::array<int, 2>{1, 2}];);
+    BAD("mdspan::operator[](span<OtherIndexType,rank>)", "index_eq_extent", int a[6] = {}; M23 m{a}; etl::array<int, 2> i{0, 3}; (void)m[etl::span<int, 2>{i}];);
+    GOOD("mdspan::operator[](span<OtherIndexType,rank>)", "corner", int a[6] = {}; M23 m{a}; etl::array<int, 2> i{1, 2}; (void)m[etl::span<int, 2>{i}];);
+    BAD("from_chars(first,last,value,base)", "base_gt_36", char const s[] = "10"; int v = 0; (void)etl::from_chars(s, s + 2, v, 37););
+    BAD("from_chars(first,last,value,base)", "base_1", char const s[] = "10"; int v = 0; (void)etl::from_chars(s, s + 2, v, 1););
+    GOOD("from_chars(first,last,value,base)", "base_36", char const s[] = "10"; int v = 0; (void)etl::from_chars(s, s + 2, v, 36););
+    GOOD("from_chars(first,last,value,base)", "base_2", char const s[] = "10"; int v = 0; (void)etl::from_chars(s, s + 2, v, 2););
+    BAD("to_chars(first,last,value,base)", "base_gt_36", char b[40] = {}; (void)etl::to_chars(b, b + 40, 5, 37););
+    BAD("to_chars(first,last,value,base)", "base_1", char b[40] = {}; (void)etl::to_chars(b, b + 40, 0, 1););
+    GOOD("to_chars(first,last,value,base)", "base_36", char b[40] = {}; (void)etl::to_chars(b, b + 40, 5, 36););
+    GOOD("to_chars(first,last,value,base)", "base_2", char b[40] = {}; (void)etl::to_chars(b, b + 40, 5, 2););
+}
+
 } // namespace
 
 int main(int argc, char** argv)
@@ -199,6 +445,10 @@ int main(int argc, char** argv)
         strings(t);
         containers(t);
         others(t);
+        containers2(t);
+        strings2(t);
+        others2(t);
+        mdspan_and_charconv(t);
         r.count("evaluations", t.rows);
         r.count("distinct_nontrivial", t.bad);
         r.count("violating_calls", t.bad);
